@@ -250,8 +250,78 @@ func c09AggrItems() []c09Aggr {
 		}
 		return ref.List(l), true
 	}})
+	// aggregates over a grouping expression's name: the name stands for the
+	// expression on each pair of the group (see c09AliasAggr)
+	out = append(out, c09Aggr{"sum(l)", "", func(ps []store.Pair) (ref.Val, bool) {
+		var n int64
+		for _, p := range ps {
+			n += int64(len(p.V))
+		}
+		return ref.I(n), true
+	}})
+	out = append(out, c09Aggr{"sum(kl) * 2", "", func(ps []store.Pair) (ref.Val, bool) {
+		var n int64
+		for _, p := range ps {
+			n += int64(len(p.K))
+		}
+		return ref.I(2 * n), true
+	}})
+	out = append(out, c09Aggr{"group_concat(u, ',')", "", func(ps []store.Pair) (ref.Val, bool) {
+		parts := make([]string, len(ps))
+		for i, p := range ps {
+			parts[i] = strings.ToUpper(p.V)
+		}
+		return ref.T(strings.Join(parts, ",")), true
+	}})
+	out = append(out, c09Aggr{"group_concat(p, '')", "", func(ps []store.Pair) (ref.Val, bool) {
+		s := ""
+		for _, p := range ps {
+			if len(p.K) > 0 {
+				s += p.K[:1]
+			}
+		}
+		return ref.T(s), true
+	}})
+	out = append(out, c09Aggr{"min(f)", "float", func(ps []store.Pair) (ref.Val, bool) {
+		vs, ok := c09Nums(ps, true)
+		if !ok {
+			return ref.Val{}, false
+		}
+		return c09Fold("min", vs), true
+	}})
+	// arithmetic with an aggregate field that is named before the select list
+	// defines it (c09Case.query appends `count(1) as cn` behind the aggregates)
+	out = append(out, c09Aggr{"sum(int(value)) + cn", "int", func(ps []store.Pair) (ref.Val, bool) {
+		vs, ok := c09Nums(ps, false)
+		if !ok {
+			return ref.Val{}, false
+		}
+		return arith("+", c09Fold("sum", vs), ref.I(int64(len(vs))))
+	}})
+	out = append(out, c09Aggr{"cn * 10 + sum(strlen(key))", "", func(ps []store.Pair) (ref.Val, bool) {
+		var n int64
+		for _, p := range ps {
+			n += int64(len(p.K))
+		}
+		return ref.I(int64(len(ps))*10 + n), true
+	}})
 	return out
 }
+
+// usesCn: the statement names the trailing aggregate field cn.
+func (c *c09Case) usesCn() bool {
+	as := c09AggrItems()
+	for _, ai := range c.Aggrs {
+		if strings.Contains(as[ai].text, "cn") {
+			return true
+		}
+	}
+	return false
+}
+
+// c09AliasAggr: aggregate items whose argument is the name of a grouping
+// expression (index into c09GroupExprs): used only in statements that group by it.
+var c09AliasAggr = map[string]int{"sum(l)": 3, "sum(kl) * 2": 6, "group_concat(u, ',')": 4, "group_concat(p, '')": 2, "min(f)": 7}
 
 var c09Wheres = []struct {
 	text string
@@ -324,6 +394,9 @@ func (c *c09Case) query() string {
 	}
 	for _, ai := range c.Aggrs {
 		fields = append(fields, as[ai].text)
+	}
+	if c.usesCn() {
+		fields = append(fields, "count(1) as cn")
 	}
 	q := "select " + strings.Join(fields, ", ") + " where " + c09Wheres[c.Where].text
 	if len(names) > 0 {
@@ -452,6 +525,18 @@ func (c09) RunUnit(t core.Tier, u int, r *core.Reporter) {
 	for ai, a := range aggrs {
 		if a.dom != "" && a.dom != uni.dom {
 			continue
+		}
+		if strings.Contains(a.text, "cn") && (len(un.groups) > 1 || t == core.Quick && len(un.groups) == 1 && un.groups[0] > 3) {
+			continue // (forward references: without grouping and with one grouping expression)
+		}
+		if need, ok := c09AliasAggr[a.text]; ok {
+			has := false
+			for _, gi := range un.groups {
+				has = has || gi == need
+			}
+			if !has {
+				continue
+			}
 		}
 		// pair the aggregate with count(1) in half of the statements (two aggregate fields)
 		for _, as := range [][]int{{ai}, {0, ai}} {
@@ -592,6 +677,13 @@ func c09Judge(c *c09Case) (f *core.Failure, nontrivial bool, status, observed st
 		}
 	}
 	for i, row := range out.Raw {
+		if c.usesCn() && len(row) == ng+len(c.Aggrs)+1 {
+			// the trailing count(1) as cn: the number of pairs of the group
+			if got, exp := ref.Canon(row[len(row)-1]), ref.I(int64(len(groups[i].pairs))).Canon(); got != exp {
+				return mk("wrong-aggregate-value", wantStr()+" and a last column cn = "+exp, out.Describe()), nontrivial, "", observed
+			}
+			row = row[:len(row)-1]
+		}
 		if len(row) != ng+len(c.Aggrs) {
 			return mk("column-count", wantStr(), out.Describe()), nontrivial, "", observed
 		}
